@@ -53,6 +53,8 @@ pub(crate) trait ConnectionStream {
 pub(crate) enum ConnectionStreamKind {
     Tcp(TcpConnectionStream),
     TcpTls(TcpTlsConnectionStream),
+    #[cfg(feature = "iggy_verif")]
+    Sim(SimConnectionStream),
 }
 
 impl ConnectionStreamKind {
@@ -60,6 +62,8 @@ impl ConnectionStreamKind {
         match self {
             Self::Tcp(c) => c.read(buf).await,
             Self::TcpTls(c) => c.read(buf).await,
+            #[cfg(feature = "iggy_verif")]
+            Self::Sim(c) => c.read(buf).await,
         }
     }
 
@@ -67,6 +71,8 @@ impl ConnectionStreamKind {
         match self {
             Self::Tcp(c) => c.write(buf).await,
             Self::TcpTls(c) => c.write(buf).await,
+            #[cfg(feature = "iggy_verif")]
+            Self::Sim(c) => c.write(buf).await,
         }
     }
 
@@ -74,6 +80,8 @@ impl ConnectionStreamKind {
         match self {
             Self::Tcp(c) => c.flush().await,
             Self::TcpTls(c) => c.flush().await,
+            #[cfg(feature = "iggy_verif")]
+            Self::Sim(c) => c.flush().await,
         }
     }
 
@@ -81,6 +89,8 @@ impl ConnectionStreamKind {
         match self {
             Self::Tcp(c) => c.shutdown().await,
             Self::TcpTls(c) => c.shutdown().await,
+            #[cfg(feature = "iggy_verif")]
+            Self::Sim(c) => c.shutdown().await,
         }
     }
 }
@@ -115,6 +125,71 @@ impl TcpTlsConnectionStream {
             client_address,
             stream,
         }
+    }
+}
+
+/// In-memory connection handed out by the installed simulator (verification builds only).
+#[cfg(feature = "iggy_verif")]
+#[derive(Debug)]
+pub(crate) struct SimConnectionStream {
+    client_address: SocketAddr,
+    reader: BufReader<tokio::io::ReadHalf<crate::verif::SimStream>>,
+    writer: BufWriter<tokio::io::WriteHalf<crate::verif::SimStream>>,
+}
+
+#[cfg(feature = "iggy_verif")]
+impl SimConnectionStream {
+    pub fn new(client_address: SocketAddr, stream: crate::verif::SimStream) -> Self {
+        let (reader, writer) = tokio::io::split(stream);
+        Self {
+            client_address,
+            reader: BufReader::new(reader),
+            writer: BufWriter::new(writer),
+        }
+    }
+}
+
+#[cfg(feature = "iggy_verif")]
+#[async_trait]
+impl ConnectionStream for SimConnectionStream {
+    async fn read(&mut self, buf: &mut [u8]) -> Result<usize, IggyError> {
+        self.reader.read_exact(buf).await.map_err(|error| {
+            error!(
+                "Failed to read data by client: {} from the simulated connection: {error}",
+                self.client_address
+            );
+            IggyError::TcpError
+        })
+    }
+
+    async fn write(&mut self, buf: &[u8]) -> Result<(), IggyError> {
+        self.writer.write_all(buf).await.map_err(|error| {
+            error!(
+                "Failed to write data by client: {} to the simulated connection: {error}",
+                self.client_address
+            );
+            IggyError::TcpError
+        })
+    }
+
+    async fn flush(&mut self) -> Result<(), IggyError> {
+        self.writer.flush().await.map_err(|error| {
+            error!(
+                "Failed to flush data by client: {} to the simulated connection: {error}",
+                self.client_address
+            );
+            IggyError::TcpError
+        })
+    }
+
+    async fn shutdown(&mut self) -> Result<(), IggyError> {
+        self.writer.shutdown().await.map_err(|error| {
+            error!(
+                "Failed to shutdown the simulated connection by client: {}: {error}",
+                self.client_address
+            );
+            IggyError::TcpError
+        })
     }
 }
 
@@ -431,6 +506,35 @@ impl TcpClient {
                 "{NAME} client is connecting to server: {}...",
                 self.config.server_address
             );
+
+            #[cfg(feature = "iggy_verif")]
+            match crate::verif::connect(&self.config.server_address) {
+                Some(Ok((stream, local, remote))) => {
+                    client_address = local;
+                    remote_address = remote;
+                    self.client_address.lock().await.replace(client_address);
+                    connection_stream =
+                        ConnectionStreamKind::Sim(SimConnectionStream::new(client_address, stream));
+                    break;
+                }
+                Some(Err(_)) => {
+                    // Same policy as for a refused TCP connection below, without touching a socket.
+                    if !self.config.reconnection.enabled {
+                        return Err(IggyError::CannotEstablishConnection);
+                    }
+                    let unlimited_retries = self.config.reconnection.max_retries.is_none();
+                    let max_retries = self.config.reconnection.max_retries.unwrap_or_default();
+                    if unlimited_retries || retry_count < max_retries {
+                        retry_count += 1;
+                        sleep(self.config.reconnection.interval.get_duration()).await;
+                        continue;
+                    }
+                    self.set_state(ClientState::Disconnected).await;
+                    self.publish_event(DiagnosticEvent::Disconnected).await;
+                    return Err(IggyError::CannotEstablishConnection);
+                }
+                None => {}
+            }
 
             let connection = TcpStream::connect(&self.config.server_address).await;
             if connection.is_err() {
